@@ -349,6 +349,15 @@ def find_check_cache(context):
              for i in regen_files.outputs) ):
         return
 
+    # The find cache is saved just before the build file is written. If it's
+    # newer than the build file, a previous run must have been interrupted in
+    # between, so we can't trust that the build file matches the cache.
+    cache_path = Path(FindCacheFile.cachefile)
+    if ( _path.getmtime_ns(cache_path, context.env.base_dirs, strict=False) >
+         _path.getmtime_ns(regen_files.outputs[0], context.env.base_dirs,
+                           strict=False) ):
+        return
+
     # Otherwise, check to see if any of the `find_files` calls have different
     # results. If not, we can avoid regenerating.
     regenerate = False
